@@ -8,7 +8,7 @@
 using namespace vf;
 
 static std::string g_name_chars(Tape &t, int maxLen, const char *forbidden) {
-  static const std::vector<std::string> chunks = {"a", "b", "Z", "0", ".", "..", " ", "%", "%41", ":", "#", "?", "+", "~", "-", "_", "&", "=", "\x7f", "\x80", "\xff", "\x01", ";", "@", "[", "]"};
+  static const std::vector<std::string> chunks = {"a", "b", "Z", "0", ".", "..", " ", "%", "%41", ":", "#", "?", "+", "~", "-", "_", "&", "=", "\x7f", "\x80", "\xff", "\x01", ";", "@", "[", "]", "\\", "\\\\", "C:"};  // backslashes and drive look-alikes are ordinary characters in Unix names
   std::string s;
   int n = t.range(0, maxLen);
   for (int i = 0; i < n; i++) {
